@@ -18,6 +18,7 @@ import XotModel.Driver.Fmap
 import XotModel.Driver.Parse
 import XotModel.Driver.Fclone
 import XotModel.Driver.Repair
+import XotModel.Driver.Lex
 import XotModel.Driver.SerTokens
 import XotModel.Driver.Fprefix
 import XotModel.Driver.Fanyorder
@@ -37,6 +38,7 @@ def dispatch (st : DState) (line : String) : DState × String :=
   | "html" :: rest => (st, (handleHtml st rest).getD "bad-request")
   | "build" :: rest => (st, (handleBuild st rest).getD "bad-request")
   | "repair" :: rest => (st, (handleRepair st rest).getD "bad-request")
+  | "lex" :: rest => (st, (handleLex rest).getD "bad-request")
   | "representable" :: rest => (st, (handleRepresentable st rest).getD "bad-request")
   | "sertokens" :: rest => (st, (handleSerTokens st rest).getD "bad-request")
   | _ => (st, "bad-request")
